@@ -33,9 +33,13 @@ def array(draw, shape, lo=-1e3, hi=1e3, styles=("raw", "raw", "int", "sparse")):
         if lo_i <= hi_i and hi > lo:
             t = (a - lo) / (hi - lo)
             a = np.clip(np.round(lo_i + t * (hi_i - lo_i)), lo_i, hi_i)
+    elif style == "int100":
+        a = np.clip(np.round(a), math.ceil(lo), math.floor(hi))
     elif style == "sparse" and lo <= 0.0 <= hi and hi > lo:
         t = (a - lo) / (hi - lo)
         a = np.where((t * 7.0) % 1.0 < 0.3, 0.0, a)
+    # magnitudes below 1e-100 are snapped to exact zero: subnormal products/quotients are not what any property is about
+    a = np.where(np.abs(a) < 1e-100, 0.0, a)
     return (a + 0.0).tolist()
 
 
